@@ -15,8 +15,12 @@
 (* Invariants (evaluated on the final state of each behaviour, so that the parallel workers    *)
 (* share them): the laws of the statement hold for the law level (the oracle is consistent),   *)
 (* and the mechanism of the code (guarded loops, table path, loop path) equals the law level   *)
-(* on the claimed domain.  The generator configurations print, for a seeded 1-in-GenMod        *)
-(* sample of the configurations, every in-domain query about (c, t) with its answer.           *)
+(* on the claimed domain - and beyond the range answers as the law counts or refuses.           *)
+(* The generator configurations print, for a seeded 1-in-GenMod sample of the configurations,  *)
+(* one SESSION on one calendar object per (c, t): every posed query about t (inside the domain: *)
+(* the answer; beyond the range: the answer by counting or a refusal), the day carried by the   *)
+(* realisation the case names, then - the table built - phase 2 (`after`): the table-free       *)
+(* questions again under another realisation.                                                   *)
 EXTENDS Calendar, TLC, Json, FiniteSetsExt, IOUtils
 CONSTANTS HW,          \* width of the holiday window: 7 or 10
           Margins,     \* the margins <<before, after>> of the calendar's range around the window: numbers in MarginMenu
